@@ -118,8 +118,10 @@ def _machine(case):
     m = scamp.Machine(2, 2, buffer_size=case["buffer"])
     m.vcpu_base = case["vcpu_base"]
     m.populate()
-    for c in m.chips.values():
-        c.sv_write("vcpu_base", m.vcpu_base)
+    for i, c in enumerate(sorted(m.chips.values(),
+                                 key=lambda c: (c.x, c.y))):
+        # the per-core blocks live at a chip-specific address
+        c.sv_write("vcpu_base", m.vcpu_base + 0x1080 * i)
         for page in (-1, 0, 1, 2):
             a = BASE + page * scamp.PAGE
             c.mem.write(a, pattern(a, scamp.PAGE))
